@@ -54,6 +54,9 @@ func main() {
 	case "multi":
 		setupLogger()
 		runMultiNode(os.Args[2:])
+	case "alias":
+		setupLogger()
+		runAlias(os.Args[2:])
 	case "config":
 		runConfig(os.Args[2:])
 	case "config-child":
